@@ -639,6 +639,12 @@ def _eng_cases(rng, tier):
         cfg = dict(rng.choice(_E.CFGS)); cfg["segments_per_merge"] = rng.choice([2, 3])
         nctx = rng.range(1, 4)
         evs, script = _E.gen_population(rng, rng.range(4, 36), nctx, rng.choice([3, 10, 1000]))
+        # events of a second type (same field names) mixed in, most of them last so that they stay in memory:
+        # an aggregate over t must not see them (fix dc170f4; before it the in-memory flow ignored the type)
+        script.insert(1, ("cmd", f"DEFINE u FIELDS {_E.FIELDS}"))
+        for j in range(rng.below(5)):
+            pos = rng.range(2, len(script)) if rng.chance(1, 3) else len(script)
+            script.insert(pos, ("cmd", f'STORE u FOR c{rng.below(nctx)} PAYLOAD {{"k": {rng.below(10)}, "g": "g{rng.below(3)}"}}'))
         script.append(("quiesce",))
         qs = []
         for _ in range(5):
@@ -686,8 +692,11 @@ def _eng_judge(c, impl):
             continue
         ks = [x["k"] for x in sel["rows"]]
         rows = ag["rows"]
+        # rows can be present twice only after a restart (WAL replay of events that are in a segment too) or a
+        # compaction (partially drained input + output): without either step an over-count is not the known finding
+        dbl = any(st[0] in ("restart", "compact") for st in c["script"])
         def bad(msg, cls):
-            return f"QUERY t{restr} {agg}: {msg} (selection has {len(ks)} rows)", cls
+            return f"QUERY t{restr} {agg}: {msg} (selection has {len(ks)} rows)", (cls if dbl else None)
         if agg == "COUNT":
             got = rows[0]["count"] if rows else 0
             if got != len(ks):
